@@ -2,6 +2,7 @@ package main
 
 import (
 	"fmt"
+	"go/token"
 	"go/types"
 	"strings"
 
@@ -16,13 +17,15 @@ func init() {
 			"R2 the fields are split from the private copy; the only stores into the fields are into slot 0 with the result of RW.Do applied to the current slot 0; the line handed to every route is bytes.Join(fields, single space) — hence value and timestamp tokens are the received bytes; " +
 			"R3 the rewriters are applied in one range loop over the snapshot's rewriter list without early exit; " +
 			"R4 after the first hand-off to an aggregator nothing stores into the fields any more, and route, destination, aggregator and table code never writes through a line/name/fields parameter; " +
-			"R5 RW.Do passes its argument only to non-mutating library calls or returns it.",
+			"R5 RW.Do passes its argument only to non-mutating library calls or returns it; " +
+			"R6 RW.Do skips a rule exactly when its not-clause matches, applies regex rules with ReplaceAll (every match) and literal rules with bytes.Replace limited by Max.",
 		NotDecided: "that bytes.Replace / Regexp.ReplaceAll implement the documented max and ${n} semantics (library contract); rewriter rule parsing; the UDP read buffer (wrapped in a reader that is consumed synchronously).",
 		Rules: []RuleDef{
 			{ID: "C04.R1", Min: 3, Doc: "volatile no-escape: every referrer of the Dispatch parameter is builtin len or the source operand of builtin copy; scanner.Bytes()/ReadLine() results are only passed to Dispatcher.Dispatch or boxed for logging", Run: c04r1},
 			{ID: "C04.R2", Min: 4, Doc: "only the name is rewritten: bytes.Fields is applied to the make+copy private buffer; stores into the fields slice have constant index 0 and value RW.Do(load fields[0]); Route.Dispatch receives bytes.Join(fields, \" \") directly", Run: c04r2},
 			{ID: "C04.R3", Min: 2, Doc: "rewriters in table order: RW.Do is called in a range loop over the `rewriters` slice of the loaded snapshot, on the loop element, loop exits only by exhaustion", Run: c04r3},
 			{ID: "C04.R4", Min: 2, Doc: "read-only after hand-off: no store into the fields slice is reachable after an AddMaybe call; no element store / copy destination / append on values derived from parameters of declared kind LINE, NAME or FIELDS in table, route, destination, aggregator", Run: c04r4},
+			{ID: "C04.R6", Min: 1, Doc: "RW.Do decision table by path enumeration: the rule is skipped (argument returned unchanged) exactly when the not-regex matches, or — only when there is no not-regex — the not-substring is contained; otherwise regex rules return re.ReplaceAll(name, new) and literal rules bytes.Replace(name, old, new, Max)", Run: c04r6},
 			{ID: "C04.R5", Min: 1, Doc: "RW.Do: values derived from the argument are only passed to Regexp.Match, bytes.Contains, Regexp.ReplaceAll, bytes.Replace/ReplaceAll (all non-mutating) or returned; no stores through it", Run: c04r5},
 		},
 	})
@@ -412,4 +415,149 @@ func c04r5(c *Check) {
 		c.Hold("rewriter.RW.Do argument read-only", c.AtFn(fn), "argument only reaches non-mutating library calls or is returned")
 	}
 	_ = types.Typ
+}
+
+func c04r6(c *Check) {
+	fn := c.P.Func("rewriter", "RW", "Do")
+	recv, buf := ssa.Value(fn.Params[0]), ssa.Value(fn.Params[1])
+	rwField := func(v ssa.Value) (string, bool) {
+		root, names := fieldPath(v)
+		if len(names) == 1 && (root == recv || strip(root) == recv) {
+			return names[0], true
+		}
+		return "", false
+	}
+	cfg := &PathCfg{Branch: func(ifi *ssa.If, cond ssa.Value, taken bool) []string {
+		cnd, neg := negStrip(cond)
+		val := taken != neg
+		tf := map[bool]string{true: "T", false: "F"}
+		switch x := cnd.(type) {
+		case *ssa.BinOp:
+			// r.notRe != nil ; r.re != nil ; len(r.not) > 0
+			if cst, ok := x.Y.(*ssa.Const); ok && cst.IsNil() {
+				if f, ok := rwField(x.X); ok {
+					if x.Op == token.EQL {
+						val = !val
+					}
+					return []string{"E:" + f + "=" + tf[val]}
+				}
+			}
+			if call, ok := x.X.(*ssa.Call); ok {
+				if b, ok := call.Call.Value.(*ssa.Builtin); ok && b.Name() == "len" {
+					if f, ok := rwField(call.Call.Args[0]); ok {
+						if k, ok := constInt(x.Y); ok && k == 0 {
+							switch x.Op {
+							case token.GTR, token.NEQ:
+							case token.EQL, token.LEQ:
+								val = !val
+							default:
+								return []string{"?"}
+							}
+							return []string{"E:" + f + "=" + tf[val]}
+						}
+					}
+				}
+			}
+		case *ssa.Call:
+			switch calleeName(x.Common()) {
+			case "(*regexp.Regexp).Match":
+				if f, ok := rwField(x.Call.Args[0]); ok && x.Call.Args[1] == buf {
+					return []string{"P:" + f + "=" + tf[val]}
+				}
+			case "bytes.Contains":
+				if f, ok := rwField(x.Call.Args[1]); ok && x.Call.Args[0] == buf {
+					return []string{"P:" + f + "=" + tf[val]}
+				}
+			}
+		}
+		return []string{"?"}
+	}}
+	paths, _ := EnumPaths(fn, nil, cfg)
+	var probs []string
+	kinds := map[string]int{}
+	for i := range paths {
+		pa := &paths[i]
+		if pa.Has("?") || pa.End != "return" || len(pa.RetV) != 1 {
+			probs = append(probs, "unrecognised decision: "+pa.String())
+			continue
+		}
+		a := map[string]bool{}
+		known := map[string]bool{}
+		for _, e := range pa.Events {
+			k := e.Class[:len(e.Class)-2]
+			a[k] = strings.HasSuffix(e.Class, "=T")
+			known[k] = true
+		}
+		// what is returned
+		kind := "?"
+		rv := pa.RetV[0]
+		switch x := rv.(type) {
+		case *ssa.Parameter:
+			if x == fn.Params[1] {
+				kind = "unchanged"
+			}
+		case *ssa.Call:
+			switch calleeName(x.Common()) {
+			case "(*regexp.Regexp).ReplaceAll":
+				f0, ok0 := rwField(x.Call.Args[0])
+				f2, ok2 := rwField(x.Call.Args[2])
+				if ok0 && ok2 && f0 == "re" && f2 == "new" && x.Call.Args[1] == buf {
+					kind = "regex"
+				}
+			case "bytes.Replace":
+				f1, ok1 := rwField(x.Call.Args[1])
+				f2, ok2 := rwField(x.Call.Args[2])
+				f3, ok3 := rwField(x.Call.Args[3])
+				if ok1 && ok2 && ok3 && f1 == "old" && f2 == "new" && f3 == "Max" && x.Call.Args[0] == buf {
+					kind = "literal"
+				}
+			}
+		}
+		kinds[kind]++
+		// expected
+		skip := -1
+		switch {
+		case known["E:notRe"] && a["E:notRe"]:
+			if known["P:notRe"] {
+				skip = b2i(a["P:notRe"])
+			}
+		case known["E:notRe"] && !a["E:notRe"]:
+			switch {
+			case known["E:not"] && !a["E:not"]:
+				skip = 0
+			case known["E:not"] && a["E:not"] && known["P:not"]:
+				skip = b2i(a["P:not"])
+			}
+		}
+		want := "?"
+		switch {
+		case skip == 1:
+			want = "unchanged"
+		case skip == 0 && known["E:re"] && a["E:re"]:
+			want = "regex"
+		case skip == 0 && known["E:re"] && !a["E:re"]:
+			want = "literal"
+		}
+		if want != kind {
+			probs = append(probs, fmt.Sprintf("returns %q where the documented rule gives %q: %s", kind, want, pa.String()))
+		}
+	}
+	if kinds["unchanged"] == 0 || kinds["regex"] == 0 || kinds["literal"] == 0 {
+		probs = append(probs, fmt.Sprintf("model incomplete: %v", kinds))
+	}
+	if len(probs) > 6 {
+		probs = probs[:6]
+	}
+	if len(probs) > 0 {
+		c.ViolateW("rewriter.RW.Do decision table", c.AtFn(fn), probs[0], probs)
+	} else {
+		c.Hold("rewriter.RW.Do decision table", c.AtFn(fn), fmt.Sprintf("%d paths: %v", len(paths), kinds))
+	}
+}
+
+func b2i(b bool) int {
+	if b {
+		return 1
+	}
+	return 0
 }
